@@ -9,6 +9,8 @@ import ALV.Lemmas.C10Min
 import ALV.Lemmas.C10Uniq
 import ALV.Lemmas.C10CovMin
 import ALV.Lemmas.C10Call
+import ALV.Lemmas.C10MinUniq
+import ALV.Lemmas.C10Float
 import ALV.Lemmas.C12Gauss
 import ALV.Common.Audit
 
@@ -241,6 +243,40 @@ example : kautocor [(1 : Rat), 2, 3, 4, 3, 2] (some 2) = .ok ([1, -38/27, 16/27]
 example : energy [(1 : Rat), -38/27, 16/27] [1, 2, 3, 4, 3, 2] 2 = 55/9 := by decide +kernel
 example : energy [(1 : Rat), -1, 1/2] [1, 2, 3, 4, 3, 2] 2 = 43/4 ∧ (55/9 : Rat) ≤ 43/4 := by decide +kernel
 
+/-- **C10.3e** (ordered field; "minimises", strictly).  Whenever `lpc.kautocor` returns — the
+recursion met no zero divisor, i.e. the Toeplitz system is non-singular — the returned filter is the
+ONLY minimiser: a monic filter of order ≤ p whose energy is not larger has the returned
+coefficients. -/
+theorem kautocor_minimiser_unique [LinearOrder K] [IsStrictOrderedRing K]
+    (blk : List K) (order : Option Nat) (a : List K) (e : K)
+    (h : kautocor blk order = .ok (a, e)) (b : List K) (hb0 : coef b 0 = 1)
+    (hbl : b.length ≤ blkOrder blk order + 1)
+    (hle : energy b blk (blkOrder blk order) ≤ energy a blk (blkOrder blk order)) :
+    ∀ j, coef b j = coef a j := by
+  obtain ⟨r, hr, hA⟩ := kautocor_ok_iter h
+  have hinv := levIter_inv r _ a hA
+  unfold blkOrder at hbl hle
+  rw [← inner_acorr_eq_energy blk r a _ hinv.len hr, ← inner_acorr_eq_energy blk r b _ hbl hr,
+    inner_eq_bilT r a a _ hinv.len hinv.len, inner_eq_bilT r b b _ hbl hbl] at hle
+  exact bilT_minimiser_unique (coef blk) blk.length (fun n hn => coef_of_length_le blk n hn) r _ hr hA
+    (coef b) hb0 (fun j hj => coef_of_length_le b j (by omega)) hle
+
+/-- strict form: every other monic filter of order ≤ p has strictly larger energy -/
+theorem kautocor_strict_minimum [LinearOrder K] [IsStrictOrderedRing K]
+    (blk : List K) (order : Option Nat) (a : List K) (e : K)
+    (h : kautocor blk order = .ok (a, e)) (b : List K) (hb0 : coef b 0 = 1)
+    (hbl : b.length ≤ blkOrder blk order + 1) (hne : ∃ j, coef b j ≠ coef a j) :
+    energy a blk (blkOrder blk order) < energy b blk (blkOrder blk order) := by
+  by_contra hlt
+  obtain ⟨j, hj⟩ := hne
+  exact hj (kautocor_minimiser_unique blk order a e h b hb0 hbl (not_lt.1 hlt) j)
+
+/-- non-vacuity: the competitor of the example above is strictly worse -/
+example : kautocor [(1 : Rat), 2, 3, 4, 3, 2] (some 2) = .ok ([1, -38/27, 16/27], 55/9) ∧
+    coef [(1 : Rat), -1, 1/2] 1 ≠ coef [(1 : Rat), -38/27, 16/27] 1 ∧
+    energy [(1 : Rat), -38/27, 16/27] [1, 2, 3, 4, 3, 2] 2 < energy [(1 : Rat), -1, 1/2] [1, 2, 3, 4, 3, 2] 2 := by
+  decide +kernel
+
 /-! ### lpc.kcovar -/
 
 /-- **C10.4a** `lpc.kcovar(blk, order)`, when it returns (no zero `beta`, no `|k| ≥ 1` exit —
@@ -376,6 +412,25 @@ theorem kcovar_returns_nonsingular (unstable : K → Bool) (blk : List K) (order
   obtain ⟨m, s, hm, hs, hne⟩ := kcovarOn_ok_betas h1
   rw [lagTable_length] at hm
   exact no_dependent_of_betas (by omega) hs hne b hb
+
+/-- **C10.4h** (ordered field; beyond the property text) … and it is the ONLY minimiser: a returning
+call means a non-singular covariance system (C10.4g), so a monic filter of order ≤ p whose residual
+energy is not larger has the returned coefficients. -/
+theorem kcovar_minimiser_unique [LinearOrder K] [IsStrictOrderedRing K] (unstable : K → Bool)
+    (blk : List K) (order : Option Nat) (a : List K) (e : K)
+    (h : kcovarWith unstable blk order = .ok (a, e)) (b : List K) (hb0 : coef b 0 = 1)
+    (hbl : b.length ≤ blkOrder blk order + 1)
+    (hle : covEnergy b blk (blkOrder blk order) ≤ covEnergy a blk (blkOrder blk order)) :
+    ∀ j, coef b j = coef a j := by
+  have hnd := kcovar_returns_nonsingular unstable blk order a e h
+  obtain ⟨_, h1⟩ := kcovarWith_ok h
+  obtain ⟨_, ha0, halen, horth, _⟩ := kcovarOn_ok (phiOf_lagTable_symm blk _) h1
+  rw [lagTable_length] at halen horth
+  rw [← innerM_lagTable_self blk a _ halen, ← innerM_lagTable_self blk b _ hbl,
+    innerM_eq_bil _ a a _ halen halen, innerM_eq_bil _ b b _ hbl hbl] at hle
+  exact bil_lagTable_minimiser_unique blk _ (coef a) (coef b) ha0 hb0
+    (fun j hj => coef_of_length_le a j (by omega)) (fun j hj => coef_of_length_le b j (by omega))
+    horth hnd hle
 
 /-- non-vacuity: a singular system (x[n−2] = 2·x[n−1] on the window) raises
     ZeroDivisionError at the second pass; the witness annihilates the window -/
@@ -617,6 +672,76 @@ example : lpcCall noNumpy .autocor [(1 : Rat), 2] (.int 5) = .error "ModuleNotFo
 
 /-- the canonical name of a strategy selects it -/
 theorem strategyOf_name (s : Strat) : strategyOf s.name = some s := by cases s <;> decide
+
+/-! ### the float regime: the run twin IS the model
+
+`Model/C10Float.lean` repeats the model with Python's builtin `sum` as a parameter `S`; the driver
+runs it on binary64 bit patterns (`F64`) with `S = sumN`, CPython's compensated float loop, and
+compares numerator, error, tables and exception kinds with the implementation BIT FOR BIT (entry
+`f64`).  Trusted there: Lean's `Float` `+ - * /`, `abs`, comparisons are the IEEE-754 binary64
+operations CPython performs; the reading of `builtin_sum_impl` as `sumN` (tied by the extra check
+`float-twin-sum-is-cpython-sum`); the operation order of `Poly` / `ZFilter` arithmetic read from the
+sources (header of `Model/C10Float.lean`). -/
+
+section twin
+variable {α : Type} [Add α] [Mul α] [Sub α] [Neg α] [Div α] [OfNat α 0] [OfNat α 1] [DecidableEq α]
+
+/-- **C10.6a** (any carrier — `Rat`, a field, `F64`; no law of arithmetic): with the left fold for
+`sum` the parameterised definitions ARE the model of the theorems above. -/
+theorem twin_plain_is_model (unstable : α → Bool) (l : List α) (o : Option Nat) :
+    acorrS sumL l o = acorr l o ∧ lagMatrixS sumL l o = lagMatrix l o ∧
+    levinsonS sumL l o = levinson l o ∧ kautocorS sumL l o = kautocor l o ∧
+    kcovarWithS sumL unstable l o = kcovarWith unstable l o :=
+  ⟨acorrS_sumL l o, lagMatrixS_sumL l o, levinsonS_sumL l o, kautocorS_sumL l o,
+    kcovarWithS_sumL unstable l o⟩
+
+end twin
+
+/-- **C10.6b** CPython's compensated float `sum` over exact operations (any ring) is the plain sum,
+whatever `fabs(f) >= fabs(x)` and `isfinite` answer: the correction term stays zero. -/
+theorem sumN_exact_is_sum {R : Type} [Ring R] [DecidableEq R] (ge : R → R → Bool) (fin : R → Bool)
+    (l : List R) : sumN ge fin l = sumL l := sumN_exact ge fin l
+
+/-- **C10.6c** (any field) the twin that is run — `sum` = the compensated loop — over exact
+operations is the model: every theorem of this file speaks about the definitions the driver
+evaluates on binary64 numbers. -/
+theorem twin_exact_is_model (ge : K → K → Bool) (fin : K → Bool) (unstable : K → Bool) (l : List K)
+    (o : Option Nat) :
+    acorrS (sumN ge fin) l o = acorr l o ∧ lagMatrixS (sumN ge fin) l o = lagMatrix l o ∧
+    levinsonS (sumN ge fin) l o = levinson l o ∧ kautocorS (sumN ge fin) l o = kautocor l o ∧
+    kcovarWithS (sumN ge fin) unstable l o = kcovarWith unstable l o := by
+  rw [sumN_exact_fun ge fin]
+  exact twin_plain_is_model unstable l o
+
+/-- **C10.6d** hence the property for the twin over exact operations: normal equations, true error,
+uniqueness. -/
+theorem twin_levinson_spec (ge : K → K → Bool) (fin : K → Bool) (r : List K) (order : Option Nat)
+    (a : List K) (e : K) (h : levinsonS (sumN ge fin) r order = .ok (a, e)) :
+    IsYuleWalker r a (orderOf r order) ∧ e = predError r a (orderOf r order) := by
+  rw [(twin_exact_is_model ge fin (fun _ => false) r order).2.2.1] at h
+  exact ⟨levinson_normal_eqs r order a e h, levinson_error r order a e h⟩
+
+/-- the binary64 instantiations the driver runs are these definitions at `F64` with CPython's
+`sum`; `levinsonF64Plain` is the model itself at `F64` -/
+theorem twin_f64_defs (l : List ALV.C11.F64) (o : Option Nat) :
+    acorrF64 l o = acorrS (sumN f64AbsGe ALV.C11.F64.isFinite) l o ∧
+    lagMatrixF64 l o = lagMatrixS (sumN f64AbsGe ALV.C11.F64.isFinite) l o ∧
+    levinsonF64 l o = levinsonS (sumN f64AbsGe ALV.C11.F64.isFinite) l o ∧
+    kautocorF64 l o = kautocorS (sumN f64AbsGe ALV.C11.F64.isFinite) l o ∧
+    kcovarF64 l o = kcovarWithS (sumN f64AbsGe ALV.C11.F64.isFinite) unstableF64 l o ∧
+    levinsonF64Plain l o = levinsonS sumL l o :=
+  ⟨rfl, rfl, rfl, rfl, rfl, (levinsonS_sumL l o).symm⟩
+
+/-- how the driver reads a binary64 input: the bit pattern, `-0.0` stored as `+0.0` (serialisation) -/
+theorem twin_f64_input (b : UInt64) :
+    ALV.C11.F64.ofBits b = ALV.C11.F64.ofFloat (Float.ofBits b) := rfl
+
+/-- non-vacuity: the compensated loop on rationals, with a genuine magnitude test, runs the
+    documented example to the documented values -/
+example : levinsonS (sumN (fun a b : Rat => decide (b * b ≤ a * a)) (fun _ => true))
+    [(1 : Rat), 1/2, 1/4, 1/3] (some 3) = .ok ([1, -1/2, 5/36, -5/18], 299/432) := by decide +kernel
+example : sumN (fun a b : Rat => decide (b * b ≤ a * a)) (fun _ => true) [(1 : Rat), 1/3, -7/5] =
+    sumL [(1 : Rat), 1/3, -7/5] := by decide +kernel
 
 /-! ### complex samples: the executable Gaussian rationals of the driver are a field -/
 
